@@ -103,6 +103,28 @@ static void audit(const std::string &key, const PSet &P, TFheGateBootstrappingPa
             // the imported cloud key evaluates: one NAND decrypts correctly with the original secret key
             LweSample *a = new_gate_bootstrapping_ciphertext(ps), *b = new_gate_bootstrapping_ciphertext(ps), *r = new_gate_bootstrapping_ciphertext(ps);
             if (P.lam) { bootsSymEncrypt(a, 1, sk); bootsSymEncrypt(b, 1, sk); bootsNAND(r, a, b, ck); if (bootsSymDecrypt(r, sk) != 0) { violation(key, "NAND(1,1) under the imported cloud key decrypts to 1"); return; } }
+            // (5) the exported rows must not determine the keys by linear algebra: modulo 2 every key-switching row and every coefficient of
+            //     every bootstrapping-key row is a linear equation lsb(b) = <lsb(a), key> + lsb(noise) (the message part is even); with real noise an
+            //     over-determined system (unknowns + 64 equations) is inconsistent with probability 1 - 2^-64; a consistent one hands out the key
+            {
+                auto consistent = [](std::vector<std::vector<uint64_t>> &rows, int unknowns) { // augmented bit rows: bit `unknowns` = right-hand side
+                    size_t r = 0; int W = (unknowns + 64) / 64;
+                    for (int c = 0; c < unknowns && r < rows.size(); c++) { size_t piv = r; while (piv < rows.size() && !((rows[piv][c / 64] >> (c % 64)) & 1)) piv++; if (piv == rows.size()) continue; std::swap(rows[r], rows[piv]);
+                        for (size_t q = 0; q < rows.size(); q++) if (q != r && ((rows[q][c / 64] >> (c % 64)) & 1)) for (int w = 0; w < W; w++) rows[q][w] ^= rows[r][w]; r++; }
+                    for (size_t q = r; q < rows.size(); q++) if ((rows[q][unknowns / 64] >> (unknowns % 64)) & 1) return false;   // 0 = 1
+                    return true; };
+                const LweKeySwitchKey *ks = ck->bkFFT->ks; int base = 1 << bb; int W = (n + 64) / 64; std::vector<std::vector<uint64_t>> eq;
+                for (int i = 0; i < kk * N && (int)eq.size() < n + 64; i++) for (int j = 0; j < t && (int)eq.size() < n + 64; j++) for (int h = 1; h < base && (int)eq.size() < n + 64; h++) { if ((j + 1) * bb >= 32) continue;
+                    const LweSample *r = &ks->ks[i][j][h]; std::vector<uint64_t> row(W, 0); for (int q = 0; q < n; q++) if (r->a[q] & 1) row[q / 64] |= 1ull << (q % 64); if (r->b & 1) row[n / 64] |= 1ull << (n % 64); eq.push_back(row); }
+                if ((int)eq.size() >= n + 64 && consistent(eq, n)) { violation(key, fmt("the %d key-switching rows of the exported cloud key form a CONSISTENT linear system modulo 2 in the %d bits of the LWE secret key: the rows carry no noise in their low bit and the key follows from public data", (int)eq.size(), n)); return; }
+                int U = kk * N, W2 = (U + 64) / 64; std::vector<std::vector<uint64_t>> eq2; const LweBootstrappingKey *bkk = ck->bk;
+                for (int i = 0; i < n && (int)eq2.size() < U + 64; i++) for (int p = 0; p < (kk + 1) * l && (int)eq2.size() < U + 64; p++) { if ((p % l + 1) * ps->tgsw_params->Bgbit >= 32) continue; const TLweSample *row = &bkk->bk[i].all_sample[p];
+                    for (int jj = 0; jj < N && (int)eq2.size() < U + 64; jj += 5) { std::vector<uint64_t> r2(W2, 0);
+                        for (int q = 0; q < kk; q++) for (int m = 0; m < N; m++) if (row->a[q].coefsT[(jj - m + N) % N] & 1) r2[(q * N + m) / 64] |= 1ull << ((q * N + m) % 64);
+                        if (row->b->coefsT[jj] & 1) r2[U / 64] |= 1ull << (U % 64); eq2.push_back(r2); } }
+                if ((int)eq2.size() >= U + 64 && consistent(eq2, U)) { violation(key, fmt("%d coefficient equations of the exported bootstrapping-key rows form a CONSISTENT linear system modulo 2 in the %d bits of the ring secret key: the key follows from public data", (int)eq2.size(), U)); return; }
+                stat_max("linear_attack_equations", (double)(eq.size() + eq2.size()));
+            }
             eval(1); nontrivial(1); outcome(mix(fnv(cloud.data() + pset.size() + kssec, 64), cloud.size()));
 }
 int main(int argc, char **argv) {
